@@ -144,7 +144,18 @@ impl Format for Dbc {
             ("wdb5_s0_n3", "WDB5", 0, 3),
             ("wdb5_s2_n9", "WDB5", 2, 9),
         ];
-        for (name, cont, k, n) in defs {
+        let mut defs: Vec<(&str, &str, u32, usize, bool)> = defs.iter().map(|d| (d.0, d.1, d.2, d.3, false)).collect();
+        if crate::thorough() {
+            // larger tables (record counts around the 8-bit boundaries, longer index ranges)
+            defs.extend([
+                ("wdbc_s0_n100", "WDBC", 0, 100, true),
+                ("wdbc_s1_n128", "WDBC", 1, 128, true),
+                ("wdbc_s2_n257", "WDBC", 2, 257, true),
+                ("wdb2_ext_index_s0_n20", "WDB2_ext_index", 0, 20, true),
+                ("wdb5_s1_n40", "WDB5", 1, 40, true),
+            ]);
+        }
+        for (name, cont, k, n, tier2) in defs {
             let mut bytes = emit(cont, k, n);
             let mut nm = name.to_string();
             if cont == "WDBC" {
@@ -158,7 +169,9 @@ impl Format for Dbc {
                     }
                 }
             }
-            out.push(flat_seed("dbc", &nm, bytes, k, 48));
+            let mut sd = flat_seed("dbc", &nm, bytes, k, 48);
+            sd.tier2 = tier2;
+            out.push(sd);
         }
         out
     }
@@ -167,6 +180,13 @@ impl Format for Dbc {
         let p0 = rec.call("DbcParser::parse", || DbcParser::parse(&mut cc));
         rec.max_consumed = rec.max_consumed.max(cc.max_end);
         let p1 = rec.call("DbcParser::parse_bytes", || DbcParser::parse_bytes(input));
+        if crate::thorough() {
+            // the header readers of every container generation on the raw bytes
+            let _ = rec.leaf("DbcVersion::detect", || wow_cdbc::DbcVersion::detect(&mut Cursor::new(input)));
+            let _ = rec.leaf("DbcHeader::parse", || wow_cdbc::DbcHeader::parse(&mut Cursor::new(input)));
+            let _ = rec.leaf("Wdb2Header::parse", || wow_cdbc::Wdb2Header::parse(&mut Cursor::new(input)));
+            let _ = rec.leaf("Wdb5Header::parse", || wow_cdbc::Wdb5Header::parse(&mut Cursor::new(input)));
+        }
         drop(p0);
         let mut sblock: Option<Arc<StringBlock>> = None;
         if let Some(p) = p1 {
@@ -230,6 +250,17 @@ impl Format for Dbc {
                         let _ = which;
                     }
                     let _ = rec.leaf(&format!("parse_records_parallel[{tag}]"), || wow_cdbc::parse_records_parallel(p.data(), &hdr, sch, Arc::clone(sb)));
+                }
+                if crate::thorough() {
+                    rec.leaf_plain("CachedStringBlock::get_string", || {
+                        let c = wow_cdbc::CachedStringBlock::from_string_block(sb);
+                        let mut n = 0usize;
+                        for off in [0u32, 1, 2, hdr.string_block_size.wrapping_sub(1), hdr.string_block_size, 0x7FFF_FFFF, 0xFFFF_FFFF] {
+                            n += c.get_string(wow_cdbc::StringRef::new(off)).map(|s| s.len()).unwrap_or(0);
+                            n += sb.get_string(wow_cdbc::StringRef::new(off)).map(|s| s.len()).unwrap_or(0);
+                        }
+                        n
+                    });
                 }
                 let _ = rec.leaf("SchemaDiscoverer::discover", || SchemaDiscoverer::new(&hdr, p.data(), sb).discover());
                 let _ = rec.leaf("SchemaDiscoverer::generate_schema", || SchemaDiscoverer::new(&hdr, p.data(), sb).with_max_records(50).generate_schema("T"));
